@@ -3,7 +3,7 @@ import ast
 import sys
 import z3
 from . import types as ty
-from .values import (I, B, V, VInt, VBool, VNum, VStr, VCls, VNone, VRef, VTuple, VFunc, VRange, VView,
+from .values import (VRecord, I, B, V, VInt, VBool, VNum, VStr, VCls, VNone, VRef, VTuple, VFunc, VRange, VView,
                      VModule, VOld, VExc, VGhost, Unsupported)
 from .heap import PyRaise, PathEnd
 
@@ -210,6 +210,8 @@ class ExprMixin:
 
     def e_Dict(self, e):
         if e.keys:
+            if all(isinstance(k, ast.Constant) and isinstance(k.value, str) for k in e.keys):
+                return VRecord({k.value: self.eval(v) for k, v in zip(e.keys, e.values)})
             raise Unsupported('non-empty dict display')
         t = self.expect_type(e)
         if t is None:
@@ -362,6 +364,8 @@ class ExprMixin:
             if fi is not None:
                 return self.truth(self.call_function(fi, [cont, item], {}))
             return self.truth(self.external_call(f'{cont.typ.cls}.__contains__', cont, [item], {}))
+        if isinstance(cont, VRef) and cont.typ == ty.ANY:
+            return self.truth(self.external_call('any.__contains__', cont, [item], {}))
         if isinstance(cont, VFunc) and cont.kind == 'class':
             meta = self.prog.metaclass_of(cont.name)
             fi = self.prog.find_method(meta, '__contains__') if meta else None
@@ -407,6 +411,8 @@ class ExprMixin:
             if fi is not None:
                 return self.call_function(fi, [obj, idx], {})
             return self.external_call(f'{obj.typ.cls}.__getitem__', obj, [idx], {})
+        if isinstance(obj, VFunc) and obj.kind == 'external':
+            return self.external_call(f'{obj.name}.__getitem__', obj.self, [idx], {})
         if isinstance(obj, VRef) and obj.typ == ty.ANY:
             return self.external_call('any.__getitem__', obj, [idx], {})
         if isinstance(obj, VFunc) and obj.kind == 'class':
